@@ -349,6 +349,12 @@ def corpus():
         ('lp-fragmented', R.lp_wire(d_full[:20], [(R.LP_SEQUENCE, b'\x00' * 8), (R.LP_FRAG_INDEX, b'\x00'),
                                                  (R.LP_FRAG_COUNT, b'\x02')])),
         ('lp-in-lp', R.lp_wire(R.lp_wire(i_plain))),
+        # well-framed envelopes whose fragment is too short to hold even its own Type / Length number
+        ('lp-fragment-fd', R.lp_wire(b'\xfd')), ('lp-fragment-fd01', R.lp_wire(b'\xfd\x01')),
+        ('lp-fragment-fe', R.lp_wire(b'\xfe\x00\x00')), ('lp-fragment-ff', R.lp_wire(b'\xff' + b'\x00' * 6)),
+        ('lp-fragment-05', R.lp_wire(b'\x05')), ('lp-fragment-06fd', R.lp_wire(b'\x06\xfd')),
+        ('lp-nack-fragment-fd', R.lp_wire(b'\xfd', [R.nack_header(50)])),
+        ('lp-token-fragment-fe', R.lp_wire(b'\xfe\x01', [(R.LP_PIT_TOKEN, b'\x01\x02')])),
         ('unknown-type', R.tlv(0x20, b'abc')), ('unknown-empty', R.tlv(1)), ('unknown-bigtype', R.tlv(0x0320, b'\x01')),
         ('name-bare', R.name_wire([P, Q])),
     ]
